@@ -19,6 +19,7 @@
 #include "assumed_musig.h"
 #include "src/secp256k1.c"
 #include "post.h"
+#include "decode.h"
 
 size_t g_k;
 #ifndef VERIF_NATIVE
@@ -66,54 +67,60 @@ void h_pubkey_agg(void) {
     INPUT(secp256k1_pubkey, k0); INPUT(secp256k1_pubkey, k1); INPUT(secp256k1_pubkey, k2);
     INPUT(secp256k1_xonly_pubkey, agg); INPUT(secp256k1_musig_keyagg_cache, cache);
     INPUT(size_t, n); INPUT(int, s0); INPUT(int, s1); INPUT(int, s2); INPUT(_Bool, use_agg); INPUT(_Bool, use_cache); INPUT(_Bool, use_keys); INPUT(size_t, k); INPUT(uint64_t, wpos);
-    const secp256k1_pubkey *arr[NK]; secp256k1_musig_keyagg_cache cache0 = cache;
-    int ret, anynull = 0, zero_x = 0, j2 = -1; size_t i;
+    const secp256k1_pubkey *arr[NK]; secp256k1_ge K[NK], AG; int kv[NK]; secp256k1_keyagg_cache_internal c1;
+    int ret, anynull = 0, invalid = 0, j2 = -1, c1_ok, ag_ok; size_t i;
+    dec_init(); kv[0] = dec_pubkey(&K[0], &k0); kv[1] = dec_pubkey(&K[1], &k1); kv[2] = dec_pubkey(&K[2], &k2);
     verif_ctx_init(&ctx); ctx.hash_ctx.fn_sha256_compression = secp256k1_sha256_transform;
     __CPROVER_assume(n <= NK);                                   /* BOUNDED stand-in: at most 3 keys */
     arr[0] = s0 ? &k0 : NULL; arr[1] = s1 ? &k1 : NULL; arr[2] = s2 ? &k2 : NULL;     /* NULL entries; contents arbitrary, so equal (duplicate) keys are included */
     g_k = k; __CPROVER_assume(g_k < 32);
     g_sg_n = 0; g_mm_n = 0; HASHLOG_RESET(); g_we = 0; g_we2 = 0; g_wpos = wpos;
-    for (i = 0; i < NK; i++) if (i < n && arr[i] == NULL) anynull = 1;
+    for (i = 0; i < NK; i++) if (i < n) { if (arr[i] == NULL) anynull = 1; else if (!kv[i]) invalid = 1; }
 
     ret = secp256k1_musig_pubkey_agg(&ctx, use_agg ? &agg : NULL, use_cache ? &cache : NULL, use_keys ? arr : NULL, n);
 
     __CPROVER_assert(ret == 0 || ret == 1, "C12 pubkey_agg: returns 0 or 1");
     __CPROVER_assert(g_error == 0, "C12 pubkey_agg: error callback never invoked");
-    if (ret == 0 && use_cache) __CPROVER_assert(cache.data[g_k] == cache0.data[g_k] && cache.data[100 + g_k] == cache0.data[100 + g_k], "C12 pubkey_agg: cache untouched on failure");
-    if (ret == 0 && use_agg) __CPROVER_assert(agg.data[g_k] == 0 && agg.data[32 + g_k] == 0, "C12 pubkey_agg: aggregate key output zeroed on failure");
-    if (!use_keys || n == 0 || anynull) { __CPROVER_assert(ret == 0 && g_illegal == 1 && g_mm_n == 0, "C12 pubkey_agg: NULL list, empty list or NULL entry is illegal"); if (n == 2 && use_keys) REACH("pubkey_agg NULL entry"); return; }
+    if (!use_keys || n == 0 || anynull) { __CPROVER_assert(ret == 0 && g_illegal == 1, "C12 pubkey_agg: NULL list, empty list or NULL entry is illegal"); if (n == 2 && use_keys) REACH("pubkey_agg NULL entry"); return; }
+    if (invalid) { __CPROVER_assert(ret == 0 && g_illegal >= 1, "C12 pubkey_agg: an invalid public key object is illegal"); REACH("pubkey_agg invalid key"); return; }
 #ifndef VERIF_NATIVE
     {
         wide p = P_();
-        for (i = 0; i < NK; i++) if (i < n && le256(&arr[i]->data[0]) == 0) zero_x = 1;
-        /* GetSecondKey: first entry whose 64 bytes differ from entry 0 */
-        for (i = NK - 1; i >= 1; i--) if (i < n) { int diff = 0; size_t b; for (b = 0; b < 64; b++) diff |= (arr[i]->data[b] != arr[0]->data[b]); if (diff) j2 = (int)i; }
-        if (zero_x) { __CPROVER_assert(ret == 0 && g_illegal >= 1 && g_mm_n == 0, "C12 pubkey_agg: an invalid (zero) public key object is illegal"); REACH("pubkey_agg zero key"); return; }
+        /* GetSecondKey over VALUES of the decoded keys: the first key that is not the same point as key 0.  (The code compares the
+         * 64 object bytes; for valid key objects - canonical coordinates, as every parser/creator writes them - that is the same.) */
+        int canon = 1;
+        for (i = 0; i < NK; i++) if (i < n) canon = canon && fval(&K[i].x) < p && fval(&K[i].y) < p;
+        for (i = NK - 1; i >= 1; i--) if (i < n && !(fval(&K[i].x) == fval(&K[0].x) && fval(&K[i].y) == fval(&K[0].y))) j2 = (int)i;
         __CPROVER_assert(g_illegal == 0, "C12 pubkey_agg: no callback for valid arguments");
-        __CPROVER_assert(g_mm_n == 1 && g_mm_count == n && g_mm_cb == secp256k1_musig_pubkey_agg_callback && g_mm_gsc == NULL, "C12 pubkey_agg: the sum runs over all n keys with the KeyAgg callback, no generator term");
+        __CPROVER_assert(g_mm_n >= 1 && g_mm_count == n && g_mm_cb == secp256k1_musig_pubkey_agg_callback && (!g_mm_has_gsc || sval(&g_mm_gscv) == 0), "C12 pubkey_agg: the sum runs over all n keys with the KeyAgg callback, no generator term");
         __CPROVER_assert(ret == g_mm_ret, "C12 pubkey_agg: fails only if the multi-multiplication fails");
         /* list hash */
         __CPROVER_assert(g_fin_n == 1 && g_w_started && g_w_b0 == 64 && g_w_s0 == 0xb399d5e0ul && g_w_s7 == 0xab148a38ul && g_w_fin && g_w_end == 64 + 33 * (uint64_t)n, "C12 pubkey_agg: one list hash from the KeyAgg list midstate over 33*n bytes");
         if (g_wpos >= 64 && g_wpos < 64 + 33 * (uint64_t)n) {
             uint64_t q = g_wpos - 64; size_t ki = (size_t)(q / 33), off = (size_t)(q % 33); unsigned char xb[32];
-            be_bytes(xb, modp(le256(&arr[ki]->data[0])));
-            __CPROVER_assert(g_w_hit && g_w_byte == (off == 0 ? (2 | (unsigned char)(modp(le256(&arr[ki]->data[32])) & 1)) : xb[off - 1]), "C12 pubkey_agg: list hash input = compressed keys in list order");
+            const secp256k1_ge *Kq = ki == 0 ? &K[0] : ki == 1 ? &K[1] : &K[2];   /* (explicit selection: a symbolic index into the struct array is mis-modelled) */
+            be_bytes32(xb, cval(&Kq->x));
+            __CPROVER_assert(g_w_hit && g_w_byte == (off == 0 ? (2 | (unsigned char)(cval(&Kq->y) & 1)) : xb[off - 1]), "C12 pubkey_agg: list hash input = compressed keys in list order");
             if (ki == 2 && off == 5) REACH("pubkey_agg list hash third key");
         }
         if (ret == 1) {
-            __CPROVER_assert(g_sg_n == 1 && GEJ_EQ(g_sg_a0, g_mm_r), "C12 pubkey_agg: aggregate key = affine form of the sum");
+            __CPROVER_assert(g_sg_n >= 1 && GEJ_EQ(g_sg_a0, g_mm_r), "C12 pubkey_agg: aggregate key = affine form of the sum");
             if (use_cache) {
-                __CPROVER_assert(cache.data[0] == 0xf4 && cache.data[1] == 0xad && cache.data[2] == 0xbb && cache.data[3] == 0xdf, "C12 pubkey_agg: cache carries its magic");
-                __CPROVER_assert(le256(&cache.data[4]) == modp(fval(&g_sg_r0.x)) && le256(&cache.data[36]) == modp(fval(&g_sg_r0.y)), "C12 pubkey_agg: cache holds Q");
-                if (j2 < 0) __CPROVER_assert(cache.data[68 + g_k] == 0 && cache.data[100 + g_k] == 0, "C12 pubkey_agg: all keys equal key 0 => no second key (infinity encoding)");
-                else __CPROVER_assert(le256(&cache.data[68]) == modp(le256(&arr[j2]->data[0])) && le256(&cache.data[100]) == modp(le256(&arr[j2]->data[32])), "C12 pubkey_agg: second key = first key whose bytes differ from key 0");
-                __CPROVER_assert(cache.data[132 + g_k] == g_w_dig[g_k], "C12 pubkey_agg: cache holds the list hash");
-                __CPROVER_assert(cache.data[164] == 0 && cache.data[165 + g_k] == 0, "C12 pubkey_agg: gacc = 1 (parity 0), tacc = 0");
+                c1_ok = dec_cache(&c1, &cache);
+                /* (the conversion oracle may hand out x = 0 / the non-point (0,0); then the encoding is not a key) */
+                if (cval4(&g_sg_r0.x) != 0) __CPROVER_assert(c1_ok && !c1.pk.infinity && cval(&c1.pk.x) == cval4(&g_sg_r0.x) && cval(&c1.pk.y) == cval4(&g_sg_r0.y), "C12 pubkey_agg: cache holds Q");
+                if (canon && j2 < 0) __CPROVER_assert(c1_ok && c1.second_pk.infinity, "C12 pubkey_agg: all keys equal key 0 => no second key");
+                if (canon && j2 >= 0) { const secp256k1_ge *K2 = j2 == 1 ? &K[1] : &K[2];
+                    __CPROVER_assert(c1_ok && !c1.second_pk.infinity && cval(&c1.second_pk.x) == cval(&K2->x) && cval(&c1.second_pk.y) == cval(&K2->y), "C12 pubkey_agg: second key = first key that differs from key 0"); }
+                __CPROVER_assert(c1_ok && c1.pks_hash[g_k] == g_w_dig[g_k], "C12 pubkey_agg: cache holds the list hash");
+                __CPROVER_assert(c1_ok && c1.parity_acc == 0 && sval(&c1.tweak) == 0, "C12 pubkey_agg: gacc = 1 (parity 0), tacc = 0");
             }
-            if (use_agg) __CPROVER_assert(le256(&agg.data[0]) == modp(fval(&g_sg_r0.x)) && le256(&agg.data[32]) < p && (le256(&agg.data[32]) & 1) == 0 &&
-                                          (le256(&agg.data[32]) == modp(fval(&g_sg_r0.y)) || le256(&agg.data[32]) + modp(fval(&g_sg_r0.y)) == p || modp(fval(&g_sg_r0.y)) == 0), "C12 pubkey_agg: x-only output = x(Q) with the even y");
-            if (n == 3 && j2 == 2 && use_cache) REACH("pubkey_agg duplicates: keys 0 and 1 equal, second key is key 2");
-            if (n == 3 && j2 < 0 && use_cache) REACH("pubkey_agg all keys equal");
+            if (use_agg && cval4(&g_sg_r0.x) != 0) {
+                ag_ok = secp256k1_xonly_pubkey_load(&g_dctx, &AG, &agg);
+                __CPROVER_assert(ag_ok && cval(&AG.x) == cval4(&g_sg_r0.x) && (cval(&AG.y) & 1) == 0 && (cval(&AG.y) == cval4(&g_sg_r0.y) || cval(&AG.y) + cval4(&g_sg_r0.y) == p || cval4(&g_sg_r0.y) == 0), "C12 pubkey_agg: x-only output = x(Q) with the even y");
+            }
+            if (n == 3 && j2 == 2 && use_cache && canon) REACH("pubkey_agg duplicates: keys 0 and 1 equal, second key is key 2");
+            if (n == 3 && j2 < 0 && use_cache && canon) REACH("pubkey_agg all keys equal");
             if (n == 1) REACH("pubkey_agg single key");
         }
     }
@@ -123,22 +130,23 @@ void h_pubkey_agg(void) {
 /* entry compiled with -DKEYAGG_CALLBACK_ENTRY: keyaggcoef_internal replaced by its logging summary */
 void h_keyagg_callback(void) {
     secp256k1_context ctx;
-    INPUT(secp256k1_pubkey, c0); INPUT(secp256k1_pubkey, c1); INPUT(secp256k1_pubkey, c2); INPUT(size_t, idx);
+    INPUT(secp256k1_pubkey, c0); INPUT(secp256k1_pubkey, c1); INPUT(secp256k1_pubkey, c2); INPUT(size_t, idx); INPUT(size_t, ki);
     INPUT(secp256k1_ge, csecond); INPUT_ARR(unsigned char, chash, 32);
-    const secp256k1_pubkey *arr[3]; secp256k1_musig_pubkey_agg_ecmult_data d; secp256k1_scalar sc; secp256k1_ge pt; int ret;
-    verif_ctx_init(&ctx); ctx.hash_ctx.fn_sha256_compression = secp256k1_sha256_transform;
+    const secp256k1_pubkey *arr[3]; secp256k1_musig_pubkey_agg_ecmult_data d; secp256k1_scalar sc; secp256k1_ge pt, K; int ret, kvalid;
     arr[0] = &c0; arr[1] = &c1; arr[2] = &c2;
-    __CPROVER_assume(idx < 3 && ge_ok1(&csecond));
-    /* the keys were loaded before (pks_hash computation), so they are valid objects: non-zero x */
+    __CPROVER_assume(idx < 3 && ki < 32 && ge_ok1(&csecond));
+    dec_init(); kvalid = dec_pubkey(&K, arr[idx]);
+    verif_ctx_init(&ctx); ctx.hash_ctx.fn_sha256_compression = secp256k1_sha256_transform;
     d.ctx = &ctx; d.pks = arr; d.second_pk = csecond; memcpy(d.pks_hash, chash, 32);
-    g_kci_n = 0;
+    g_kci_n = 0; g_kci_i = ki;
     ret = secp256k1_musig_pubkey_agg_callback(&sc, &pt, idx, &d);
 #ifndef VERIF_NATIVE
-    if (le256(&arr[idx]->data[0]) != 0) {
+    if (kvalid) {   /* the keys were loaded before (list hash), so they are valid objects */
         __CPROVER_assert(ret == 1 && g_illegal == 0 && g_error == 0, "C12 keyagg callback: succeeds for a valid key");
-        __CPROVER_assert(g_kci_n == 1 && g_kci_hash_p == d.pks_hash && g_kci_second_p == &d.second_pk && g_kci_pk_p == &pt, "C12 keyagg callback: coefficient is over the aggregation's list hash and second key, for the point handed back");
+        __CPROVER_assert(g_kci_n >= 1 && g_kci_hash_b == chash[ki] && GE_EQ(g_kci_second, csecond), "C12 keyagg callback: the coefficient is over THIS aggregation's list hash and second key (content)");
+        __CPROVER_assert(!g_kci_pk.infinity && cval4(&g_kci_pk.x) == cval(&K.x) && cval4(&g_kci_pk.y) == cval(&K.y), "C12 keyagg callback: ... for the idx-th public key");
         __CPROVER_assert(SC_EQ(sc, g_kci_r), "C12 keyagg callback: the scalar handed back is that coefficient");
-        __CPROVER_assert(!pt.infinity && fe_same_or_normalised(fval(&pt.x), le256(&arr[idx]->data[0])) && fe_same_or_normalised(fval(&pt.y), le256(&arr[idx]->data[32])), "C12 keyagg callback: the point handed back is the idx-th public key");
+        __CPROVER_assert(!pt.infinity && cval4(&pt.x) == cval(&K.x) && cval4(&pt.y) == cval(&K.y), "C12 keyagg callback: the point handed back is the idx-th public key");
         if (idx == 2) REACH("keyagg callback third key");
     }
 #endif
